@@ -3,7 +3,12 @@ package main
 import (
 	"bufio"
 	"bytes"
+	"crypto/sha256"
+	"crypto/tls"
+	"crypto/x509"
+	"encoding/hex"
 	"encoding/json"
+	"encoding/pem"
 	"fmt"
 	"io"
 	"math/rand"
@@ -62,7 +67,9 @@ func init() {
 // ---- recording peers ----
 
 func c05Log(dir, file string, rec map[string]any) {
-	rec["t"] = time.Now().UnixNano()
+	if _, preset := rec["t"]; !preset {
+		rec["t"] = time.Now().UnixNano()
+	}
 	b, _ := json.Marshal(rec)
 	f, err := os.OpenFile(filepath.Join(dir, file), os.O_APPEND|os.O_CREATE|os.O_WRONLY, 0o644)
 	if err != nil {
@@ -70,6 +77,66 @@ func c05Log(dir, file string, rec map[string]any) {
 	}
 	f.Write(append(b, '\n'))
 	f.Close()
+}
+
+// c05CertFp: a short fingerprint of the first certificate of a PEM text (what identifies "the
+// certificate" whatever its PEM spelling); "" for no text, "undecodable" for text that is no PEM.
+func c05CertFp(pemBytes []byte) string {
+	if len(pemBytes) == 0 {
+		return ""
+	}
+	block, _ := pem.Decode(pemBytes)
+	if block == nil {
+		return "undecodable"
+	}
+	return c05DERFp(block.Bytes)
+}
+
+func c05DERFp(der []byte) string {
+	sum := sha256.Sum256(der)
+	return hex.EncodeToString(sum[:8])
+}
+
+// c05ProbeTLS dials host:port with crypto/tls without verifying anything and returns the
+// fingerprint of the leaf certificate the server there presents ("" if it presents none) and how
+// the attempt went: presented | noconn | nohandshake.
+func c05ProbeTLS(host string, port int, clientCreds *conformancev1.TLSCreds) (string, string) {
+	conn, err := net.DialTimeout("tcp", net.JoinHostPort(host, strconv.Itoa(port)), 3*time.Second)
+	if err != nil {
+		return "", "noconn"
+	}
+	defer conn.Close()
+	leaf := ""
+	conf := &tls.Config{InsecureSkipVerify: true, //nolint:gosec
+		VerifyPeerCertificate: func(raw [][]byte, _ [][]*x509.Certificate) error {
+			if len(raw) > 0 {
+				leaf = c05DERFp(raw[0])
+			}
+			return nil
+		}}
+	if clientCreds != nil {
+		if pair, err := tls.X509KeyPair(clientCreds.Cert, clientCreds.Key); err == nil {
+			conf.Certificates = []tls.Certificate{pair}
+		}
+	}
+	tc := tls.Client(conn, conf)
+	_ = conn.SetDeadline(time.Now().Add(5 * time.Second))
+	_ = tc.Handshake()
+	if leaf == "" {
+		return "", "nohandshake"
+	}
+	return leaf, "presented"
+}
+
+// the operator's key pair (--cert / --key): generated once per harness process
+var (
+	c05OpOnce           sync.Once
+	c05OpCert, c05OpKey []byte
+)
+
+func c05OperatorPair() ([]byte, []byte) {
+	c05OpOnce.Do(func() { c05OpCert, c05OpKey, _ = internal.NewServerCert() })
+	return c05OpCert, c05OpKey
 }
 
 // c05Peer implements `verifharness c05peer server <logdir> <exitDelayMs[,exitDelayMs…]> <behaviour>` and
@@ -142,8 +209,35 @@ func c05Peer(args []string) int {
 		}
 		port := ln.Addr().(*net.TCPAddr).Port
 		file := fmt.Sprintf("srv-%d.jsonl", os.Getpid())
+		// under TLS the server really presents a certificate to whoever connects: the one the runner
+		// sent (ServerCreds), or — behaviour owncert — one of its own making, which it then reports
+		pemCert := req.ServerCreds.GetCert()
+		certFp := ""
+		if req.UseTls && behaviour != "garbage" {
+			keyPEM := req.ServerCreds.GetKey()
+			if behaviour == "owncert" {
+				pemCert, keyPEM, _ = internal.NewServerCert()
+			}
+			if pair, err := internal.ParseServerCert(pemCert, keyPEM); err == nil {
+				certFp = c05DERFp(pair.Certificate[0])
+				go func() {
+					for {
+						conn, err := ln.Accept()
+						if err != nil {
+							return
+						}
+						go func() {
+							tc := tls.Server(conn, &tls.Config{Certificates: []tls.Certificate{pair}, MinVersion: tls.VersionTLS12})
+							_ = conn.SetDeadline(time.Now().Add(5 * time.Second))
+							_ = tc.Handshake()
+							conn.Close()
+						}()
+					}
+				}()
+			}
+		}
 		c05Log(dir, file, map[string]any{"ev": "start", "pid": os.Getpid(), "port": port, "proto": int(req.Protocol), "ver": int(req.HttpVersion),
-			"tls": req.UseTls, "certs": len(req.ClientTlsCert) > 0, "hasServerCreds": req.ServerCreds != nil, "behaviour": behaviour, "seq": seq, "delay": delay})
+			"tls": req.UseTls, "certs": len(req.ClientTlsCert) > 0, "hasServerCreds": req.ServerCreds != nil, "behaviour": behaviour, "seq": seq, "delay": delay, "certFp": certFp})
 		switch behaviour {
 		case "garbage":
 			os.Stdout.Write([]byte{0, 0, 0, 3, 0xff, 0xff, 0xff})
@@ -152,7 +246,7 @@ func c05Peer(args []string) int {
 		default:
 			resp := &conformancev1.ServerCompatResponse{Host: "127.0.0.1", Port: uint32(port)}
 			if req.UseTls {
-				resp.PemCert = req.ServerCreds.GetCert()
+				resp.PemCert = pemCert
 			}
 			internal.WriteDelimitedMessage(os.Stdout, resp)
 		}
@@ -226,10 +320,17 @@ func c05Peer(args []string) int {
 					probe = "alive"
 				}
 			}
+			// is the certificate this request carries the one the server at host:port presents, now?
+			tRead := time.Now().UnixNano()
+			handedFp, presentedFp, tlsProbe := c05CertFp(req.ServerTlsCert), "", ""
+			if len(req.ServerTlsCert) > 0 {
+				presentedFp, tlsProbe = c05ProbeTLS(req.Host, int(req.Port), req.ClientTlsCreds)
+			}
 			mu.Lock()
-			c05Log(dir, file, map[string]any{"ev": "req", "name": req.TestName, "host": req.Host, "port": int(req.Port), "hasCert": len(req.ServerTlsCert) > 0,
+			c05Log(dir, file, map[string]any{"t": tRead, "ev": "req", "name": req.TestName, "host": req.Host, "port": int(req.Port), "hasCert": len(req.ServerTlsCert) > 0,
 				"hasClientCreds": req.ClientTlsCreds != nil, "proto": int(req.Protocol), "ver": int(req.HttpVersion), "hdrName": names,
-				"codec": int(req.Codec), "comp": int(req.Compression), "probe": probe})
+				"codec": int(req.Codec), "comp": int(req.Compression), "probe": probe,
+				"handedFp": handedFp, "presentedFp": presentedFp, "tlsProbe": tlsProbe})
 			if diesReading && nRead == stopAfter {
 				breakdown()
 			}
@@ -299,12 +400,17 @@ type c05In struct {
 	// other one) | copy: samebase plus the first suite once more in a third file (two suites of one name:
 	// the suite set is refused) | twice: samebase, the first path given twice (one suite)
 	Layout string `json:"layout,omitempty"`
+	// OpCert: the operator gives a key pair of their own (Flags.TLSCertFile / TLSKeyFile, --cert / --key):
+	// the in-process reference server (mode client) listens with it; with a server under test (mode
+	// both) it has no part
+	OpCert bool `json:"opCert,omitempty"`
 	// Cli (op cli): the scenario goes through the real command built from the tree
 	Cli *c05Cli `json:"cli,omitempty"`
 	// TimeoutS: the watchdog of this scenario (0: 90 s) — Run not having returned by then is the
 	// observation "the run did not terminate"; the scenario's peer processes are then killed
 	TimeoutS int `json:"timeoutS,omitempty"`
 }
+
 // c05Cli: how the command line is spelled.  MaxServers: flag (`--max-servers N`) | eq (`--max-servers=N`)
 // | default (not given: 4).  Port (mode client): `--port P` with a port that is free at that moment.
 // RunSpell / SkipSpell: how the patterns are given, in order: "L" the next pattern as a literal flag
@@ -336,6 +442,8 @@ type c05Out struct {
 	FixedPort int    `json:"fixedPort,omitempty"`
 	PortTaken bool   `json:"portTaken,omitempty"`
 	Stderr    string `json:"stderr,omitempty"`
+	// OpCertFp: fingerprint of the operator's certificate (opCert)
+	OpCertFp string `json:"opCertFp,omitempty"`
 }
 
 // c05AliveServers: the server processes of this scenario (one log file per pid) that are running
@@ -469,6 +577,15 @@ func c05Run(c *gen.Ctx, in c05In) c05Out {
 	self, _ := os.Executable()
 	flags := &cc.Flags{ConfigFile: cfgPath, TestFiles: paths, MaxServers: uint(in.MaxServers), Parallelism: 4, ServerBind: "127.0.0.1",
 		RunPatterns: in.Run, SkipPatterns: in.Skip, Verbose: in.Verbose}
+	opCertPath, opKeyPath := filepath.Join(dir, "operator-cert.pem"), filepath.Join(dir, "operator-key.pem")
+	var opCertFp string
+	if in.OpCert {
+		certPEM, keyPEM := c05OperatorPair()
+		os.WriteFile(opCertPath, certPEM, 0o644)
+		os.WriteFile(opKeyPath, keyPEM, 0o600)
+		flags.TLSCertFile, flags.TLSKeyFile = opCertPath, opKeyPath
+		opCertFp = c05CertFp(certPEM)
+	}
 	flags.ClientCommand = []string{self, "c05peer", "client", dir, fmt.Sprint(in.LatencyMs)}
 	if in.ClientStopHow != "" {
 		flags.ClientCommand = append(flags.ClientCommand, fmt.Sprint(in.ClientStopAfter), in.ClientStopHow)
@@ -498,6 +615,7 @@ func c05Run(c *gen.Ctx, in c05In) c05Out {
 		serverGRPC = false
 	}
 	var out c05Out
+	out.OpCertFp = opCertFp
 	perms, err := cc.VerifC05Perms(files, cfg, mode, false, serverGRPC)
 	if err == nil {
 		out.Perms = perms
@@ -565,6 +683,9 @@ func c05Run(c *gen.Ctx, in c05In) c05Out {
 		spell("--skip", in.Skip, in.Cli.SkipSpell)
 		if in.Verbose {
 			args = append(args, "-v")
+		}
+		if in.OpCert {
+			args = append(args, "--cert", opCertPath, "--key", opKeyPath)
 		}
 		if in.Mode != "both" {
 			args = append(args, "--bind", "127.0.0.1")
@@ -794,6 +915,41 @@ func c05NameScenarios(c *gen.Ctx) []any {
 	return ins
 }
 
+// c05CertScenarios: whose certificate is it?  The client must be handed the certificate that the
+// server at the address it is handed presents (the recording client dials every TLS request's
+// host:port with crypto/tls and compares the leaf certificate), and none for a plaintext instance —
+// with the key pair generated by the runner and with one the operator supplies (--cert / --key:
+// the in-process reference server listens with it), TLS on / off, client certificates on / off;
+// and with a server under test (mode both) that echoes the runner's credentials or presents a
+// certificate of its own making (owncert), where the operator's files have no part.
+func c05CertScenarios(c *gen.Ctx, allKinds []c05Suite) []any {
+	r := c.R
+	mk := func(mode string, op, tls, certs bool, ms int, beh string, run []string, suites []c05Suite) any {
+		c.E.Count(fmt.Sprintf("cert:%s:%s:op=%v:tls=%v:certs=%v", mode, beh, op, tls, certs))
+		return c05In{Mode: mode, MaxServers: ms, Versions: []int{1, 2}, Protos: []int{1, 2, 3}, TLS: tls, Certs: certs, OpCert: op,
+			Behaviour: beh, Run: run, Skip: []string{}, Suites: suites}
+	}
+	ins := []any{
+		mk("client", true, true, true, 2, "ok", []string{}, allKinds),
+		mk("client", true, true, false, 1, "ok", []string{"**/TLS:true/**"}, allKinds[:2]),
+		mk("client", false, true, true, gen.Pick(r, []int{1, 3}), "ok", []string{}, allKinds),
+		mk("client", true, false, false, 2, "ok", []string{}, allKinds[:1]),
+		mk("both", true, true, true, 2, "ok", []string{}, allKinds),
+	}
+	own := c05In{Mode: "both", MaxServers: 2, Versions: []int{2}, Protos: []int{1}, TLS: true, Certs: r.Bool(), OpCert: r.Bool(), Behaviour: "owncert",
+		Run: []string{}, Skip: []string{}, Suites: allKinds[:2]}
+	c.E.Count("cert:both:owncert")
+	ins = append(ins, own)
+	if c.Thorough() {
+		for i := 0; i < 6; i++ {
+			tls := r.Chance(3, 4)
+			ins = append(ins, mk(gen.Pick(r, []string{"client", "client", "both"}), r.Chance(2, 3), tls, tls && r.Bool(), r.Range(1, 4), gen.Pick(r, []string{"ok", "ok", "eof"}),
+				gen.Pick(r, [][]string{{}, {"**/a/*"}, {"T/**", "M/**"}}), allKinds))
+		}
+	}
+	return ins
+}
+
 // c05CliScenarios (op cli): a handful of the scenarios of op run through the real command.
 func c05CliScenarios(c *gen.Ctx) []any {
 	r := c.R
@@ -825,6 +981,12 @@ func c05CliScenarios(c *gen.Ctx) []any {
 	add(c05In{Mode: "client", MaxServers: 4, Versions: []int{1, 2}, Protos: []int{1, 2, 3}, Behaviour: "ok", Suites: plain, Cli: &c05Cli{MaxServers: "default", Port: true}})
 	add(c05In{Mode: "client", MaxServers: 1, Versions: []int{1, 2}, Protos: []int{1, 3}, TLS: true, Behaviour: "ok", Suites: kinds[:2], Cli: &c05Cli{MaxServers: gen.Pick(r, []string{"flag", "eq"}), Port: true}})
 	add(c05In{Mode: "client", MaxServers: 2, Versions: []int{1, 2}, Protos: []int{1, 2}, Behaviour: "ok", Suites: plain, Cli: &c05Cli{MaxServers: "flag", Port: true}})
+	// the operator's own key pair given as --cert / --key (mode client: the reference server listens with
+	// it; mode both: it has no part): the client is handed the certificate its server presents
+	add(c05In{Mode: "client", MaxServers: 2, Versions: []int{1, 2}, Protos: []int{1, 3}, TLS: true, Certs: true, OpCert: true, Behaviour: "ok", Suites: kinds, Cli: &c05Cli{MaxServers: "flag", Port: r.Bool()}})
+	if c.Thorough() {
+		add(c05In{Mode: "both", MaxServers: 2, Versions: []int{2}, Protos: []int{1, 2}, TLS: true, OpCert: true, Behaviour: "ok", Suites: kinds[:2], Cli: &c05Cli{MaxServers: "eq"}})
+	}
 	// the suite SET and the pattern SET the user gave: several --test-file arguments with equal file names
 	// in different directories / relative and absolute paths / one path twice / one suite in two files
 	// (refused: nothing handed out); --run / --skip as repeated flags mixing literals and @files (a
@@ -849,6 +1011,7 @@ func c05CliScenarios(c *gen.Ctx) []any {
 			}
 			in.TLS = r.Bool()
 			in.Certs = in.TLS && r.Bool()
+			in.OpCert = r.Chance(1, 3)
 			if in.Cli.MaxServers == "default" {
 				in.MaxServers = 4
 			}
@@ -966,6 +1129,11 @@ func runC05(c *gen.Ctx) error {
 		if r.Chance(1, 2) {
 			in.Skip = append(in.Skip, pat())
 		}
+		// the operator's own key pair: the reference server's listener in mode client, no part in mode both
+		in.OpCert = (in.Mode == "client" && in.TLS && r.Bool()) || r.Chance(1, 5)
+		if in.OpCert {
+			c.E.Count("opcert:" + in.Mode + fmt.Sprintf(":tls=%v:certs=%v", in.TLS, in.Certs))
+		}
 		ins = append(ins, in)
 	}
 	// fixed coverage scenarios: every instance kind in one run (plaintext, TLS, TLS + client certs),
@@ -994,6 +1162,7 @@ func runC05(c *gen.Ctx) error {
 			Behaviour: "ok", Run: mp[0], Skip: mp[1], Suites: allKinds[:2]})
 	}
 	ins = append(ins, c05NameScenarios(c)...)
+	ins = append(ins, c05CertScenarios(c, allKinds)...)
 	// the suite set as given in files (Flags.TestFiles): equal file names in different directories, a suite in two files
 	for _, layout := range []string{"samebase", "copy"} {
 		ins = append(ins, c05In{Mode: "both", MaxServers: 2, ExitDelayMs: 0, Versions: []int{1, 2}, Protos: []int{1, 3}, Behaviour: "ok", Run: []string{}, Skip: []string{},
